@@ -586,12 +586,19 @@ Expr={expr}"""
         return _concat, ()
 
     @staticmethod
-    def _postpersist(futures, meta, divisions, name):
+    def _postpersist(futures, meta, divisions, name, rename=None):
+        if rename:
+            # dask.graph_manipulation hands over a whole graph with renamed
+            # output keys, not only the outputs
+            names = set(rename.values())
+            keys = sorted(k for k in futures if type(k) is tuple and k[0] in names)
+        else:
+            keys = sorted(futures)
         return from_graph(
             futures,
             meta,
             divisions,
-            sorted(futures),
+            keys,
             name,
         )
 
